@@ -94,6 +94,8 @@ def pre_gen_factory(store):
                 v = type(v)(v)  # a fresh object per operation, as in a replay
             if links and rng.random() < 0.08:
                 return {"op": "setattr", "n": rng.choice(links), "k": rng.choice(CLASS_LEVEL_NAMES), "v": "w%d" % step}
+            if "HNodeRO" in store.cls and rng.random() < 0.15:
+                return {"op": "setattr", "n": rng.choice(links) if links else i, "k": "ro", "v": step}
             return {"op": "setattr", "n": i, "k": k, "v": v}
         links_now = [j for j in range(n) if store.cls[j] in LINK_CLASSES]
         if links_now and r > 0.93:
@@ -155,6 +157,24 @@ def run(cfg, ops=None, rng=None):
                 store.target[j] = t
                 res.bump("retargets")
             check_reads(step, world, store, res, op)
+            return
+        if op["op"] == "setattr" and k == "ro" and store.cls[store.holder(i)] == "HNodeRO":
+            # the target refuses the assignment (read-only property): the error must come through, and the link
+            # must not keep the value for itself
+            try:
+                setattr(node, k, op["v"])
+                refused = False
+            except AttributeError:
+                refused = True
+            res.bump("refused_writes")
+            kept = world.nodes[i].__dict__.get("ro", MISSING) if store.cls[i] in LINK_CLASSES else MISSING
+            if not refused or kept is not MISSING or getattr(node, "ro") != 7:
+                raise Violation(
+                    "C20", "forward-write", step, "forward-write:refused",
+                    "step %d %s: the target's read-only property refuses the value; the assignment %s, the link %s, reading gives %r"
+                    % (step, op, "was refused" if refused else "returned normally", "kept %r for itself" % (kept,) if kept is not MISSING else "kept nothing",
+                       getattr(node, "ro")),
+                )
             return
         if op["op"] == "setattr" and k in CLASS_LEVEL_NAMES:
             setattr(node, k, op["v"])
